@@ -96,6 +96,14 @@ def src_lam1k(scratch):
     return Built(LambdaSimulation(N_HUGE, lambda i: [i % 7, i % 3], lambda i, c: act, lambda i, c, a: ((i + a) % 5) / 4), {'actions': act})
 
 
+def src_lam3(scratch):
+    """Three interactions with other data than `lam` (second member of a two-environment collection)."""
+    ctx = [[9, 8.5], [7, 6.5], [5, 4.5]]
+    act = ['x', 'y', 'z']
+    rwd = [[1, 0, .25], [.5, 1, 0], [0, .25, 1]]
+    return Built(_lambda_env(ctx, act, rwd, 3), {'contexts': ctx, 'actions': act, 'rewards': rwd})
+
+
 def src_lin(scratch):
     return Built(LinearSyntheticSimulation(N, 3, 2, 2, seed=1))
 
@@ -214,6 +222,7 @@ SOURCES = {
     'lamna':    (src_lamna,    'LambdaSimulation',                    {'sim'}),
     'lamv':     (src_lamv,     'LambdaSimulation',                    {'sim'}),
     'lin':      (src_lin,      'LinearSyntheticSimulation',           {'sim'}),
+    'lam3':     (src_lam3,     'LambdaSimulation',                    {'sim'}),
     'lam40':    (src_lam40,    'LambdaSimulation(40 interactions)',   {'sim'}),
     'lam1k':    (src_lam1k,    'LambdaSimulation(1001 interactions)', {'sim'}),
     'supXY':    (src_supXY,    'SupervisedSimulation(X,Y)',           {'sim'}),
@@ -229,7 +238,7 @@ SOURCES = {
 }
 
 
-SRC_BIG = ('lam40', 'lam1k')       # explored by their own plans (see C04.pipelines)
+SRC_BIG = ('lam3', 'lam40', 'lam1k')       # explored by their own plans (see C04.pipelines)
 
 
 def build_source(name, scratch):
@@ -330,6 +339,70 @@ FILTERS_ONE = ['Shuffle', 'Take', 'Slice', 'Reservoir', 'Scale', 'Impute', 'Spar
                'Finalize', 'OpeIPS']
 # filters with state that survives between two read() calls (or that draw random numbers): used for chains of length 3
 FILTERS_STATEFUL = ['Shuffle', 'Cache', 'Densify', 'Finalize', 'Impute', 'Scale', 'Logged']
+
+
+# ------------------------------------------------------------------ Environments shortcuts applied ONCE to a whole collection
+
+def _sc_params(e, o):
+    d = {'p': 1}
+    o['params.params'] = d
+    return e.params(d)
+
+
+def _sc_logged(e, o):
+    lrn = RandomLearner(3)
+    o['logged.learner'] = lrn
+    return e.logged(lrn, 1.5)
+
+
+# name -> (call on an Environments object, needs(tags of a member) -> bool)
+SHORTCUTS = {
+    'cache':         (lambda e, o: e.cache(), _any),
+    'chunk':         (lambda e, o: e.chunk(), _any),
+    'chunk_nocache': (lambda e, o: e.chunk(cache=False), _any),
+    'materialize':   (lambda e, o: e.materialize(), _any),
+    'shuffle':       (lambda e, o: e.shuffle(1), _any),
+    'take':          (lambda e, o: e.take(2), _any),
+    'slice':         (lambda e, o: e.slice(1, 3), _any),
+    'reservoir':     (lambda e, o: e.reservoir(2, 2), _any),
+    'riffle':        (lambda e, o: e.riffle(1, 3), _any),
+    'sort':          (lambda e, o: e.sort(0), _any),
+    'where':         (lambda e, o: e.where(n_interactions=(2, None)), _any),
+    'scale':         (lambda e, o: e.scale('min', 'minmax'), _any),
+    'scale0':        (lambda e, o: e.scale(0, 'maxabs'), _any),
+    'impute':        (lambda e, o: e.impute('mean'), _any),
+    'sparse':        (lambda e, o: e.sparse(), _any),
+    'dense':         (lambda e, o: e.dense(4, 'lookup'), _any),
+    'flatten':       (lambda e, o: e.flatten(), _any),
+    'repr':          (lambda e, o: e.repr('onehot', 'onehot'), _any),
+    'noise':         (lambda e, o: e.noise(reward=('g', 0, .5), seed=2), _sim),
+    'binary':        (lambda e, o: e.binary(), _sim),
+    'cycle':         (lambda e, o: e.cycle(2), _sim),
+    'grounded':      (lambda e, o: e.grounded(4, 2, 4, 2, 1), _sim),
+    'batch':         (lambda e, o: e.batch(2), _any),
+    'batch_unbatch': (lambda e, o: e.batch(2).unbatch(), _any),
+    'params':        (_sc_params, _any),
+    'logged':        (_sc_logged, lambda t: 'sim' in t),
+    'ope_rewards':   (lambda e, o: e.ope_rewards('IPS'), lambda t: 'logged' in t),
+    # two steps: a cache before / after another shortcut
+    'cache_take':    (lambda e, o: e.cache().take(2), _any),
+    'take_cache':    (lambda e, o: e.take(2).cache(), _any),
+    'shuffle_chunk': (lambda e, o: e.shuffle(1).chunk(), _any),
+    'logged_cache':  (lambda e, o: _sc_logged(e, o).cache(), lambda t: 'sim' in t),
+    'dense_cache':   (lambda e, o: e.dense(4, 'lookup').cache(), _any),
+}
+# pairs of DIFFERENT environments held by one Environments object (other data, other length, other kind)
+DUO_PAIRS = [('lam', 'lam3'), ('lams', 'lam'), ('lamsp', 'lam3'), ('resO', 'lam1h')]
+DUO_PAIRS_MORE = [('arffL', 'supLS'), ('supXY', 'csvF'), ('resF', 'resO'), ('lamna', 'lamv')]
+
+
+def duo_compatible(a, b, short):
+    needs = SHORTCUTS[short][1]
+    return needs(set(SOURCES[a][2])) and needs(set(SOURCES[b][2]))
+
+
+def apply_shortcut(short, envs, owned):
+    return SHORTCUTS[short][0](envs, owned)
 
 
 def make_filter(name, owned):
